@@ -916,6 +916,8 @@ class Engine:
             return self.dict_keys(it)
         if isinstance(it, GraphEdges):
             return self.graph_edges(it.graph)
+        if isinstance(it, Rec) and "nodes" in it.fields and "adj" in it.fields and isinstance(it.fields["nodes"], SDict):
+            return self.dict_keys(it.fields["nodes"])          # iterating a graph iterates its nodes
         if type(it).__name__ == "DictItems":
             keys = self.dict_keys(it.d)
             i = z3.Int("_di")
@@ -1660,6 +1662,9 @@ class Engine:
                 if isinstance(d, dict) and all(isinstance(k, str) for k in d):
                     kwargs.update(d)
                     continue
+                if isinstance(d, Rec) and "**" not in kwargs:
+                    kwargs["**"] = d        # an opaque mapping handed on as a whole: only a **kwargs parameter can receive it
+                    continue
                 raise Unsupported("**kwargs call with a non-literal mapping")
             kwargs[kw.arg] = self.ev(kw.value)
         return self.call(fn, args, kwargs, node)
@@ -1742,7 +1747,13 @@ class Engine:
             elif d is not None:
                 env[k.arg] = self.ev(d)
         extra = {k: v for k, v in kwargs.items() if k not in names and k not in [x.arg for x in a.kwonlyargs]}
-        if a.kwarg:
+        if a.kwarg and "**" in extra:
+            if len(extra) > 1:
+                raise Unsupported("opaque **mapping mixed with further keyword arguments")
+            env[a.kwarg.arg] = extra["**"]
+        elif "**" in extra:
+            raise Unsupported("opaque **mapping passed to a function without **kwargs")
+        elif a.kwarg:
             env[a.kwarg.arg] = dict(extra)
         elif extra:
             raise PyRaise("TypeError")
